@@ -7,7 +7,8 @@
 //! `VirtualWorkspace::ty` ("T:" prefix: `---@type <repr>`) or `expr_ty` ("E:" prefix: `local t = <expr>`), checks go
 //! through `SemanticModel::type_check` (= `check_type_compact`), unions through `TypeOps::Union` / `TypeOps::union_all`.
 use emmylua_code_analysis::{
-    DbIndex, LuaType, LuaTypeDeclId, LuaUnionType, TypeCheckFailReason, TypeOps, VirtualWorkspace,
+    DbIndex, InferGuard, LuaType, LuaTypeDeclId, LuaUnionType, RenderLevel, TypeCheckFailReason, TypeHumanizer, TypeOps,
+    VirtualWorkspace,
 };
 use serde_json::{Value, json};
 use std::collections::HashMap;
@@ -718,6 +719,61 @@ fn main() {
             let ds = ws.analysis.diagnose_file(fid, tokio_util::sync::CancellationToken::new()).unwrap_or_default();
             for d in ds {
                 println!("{}", json!({"code": format!("{:?}", d.code), "msg": d.message, "line": d.range.start.line}));
+            }
+        }
+        "guards" => {
+            // C12 tie for semantic/guard.rs: random programs of new / fork / check on the real InferGuard;
+            // one JSON line per program: the ops and what every check answered
+            for case in 0..n {
+                let mut rng = Rng::new(seed ^ 0x6A4D ^ ((case as u64).wrapping_mul(0x9E3779B97F4A7C15)));
+                rng.next();
+                let mut guards: Vec<std::rc::Rc<InferGuard>> = vec![InferGuard::new()];
+                let mut ops: Vec<Value> = vec![json!(["new"])];
+                let mut answers: Vec<Value> = vec![];
+                let nops = rng.range(4, 40);
+                let nids = rng.range(1, 6);
+                for _ in 0..nops {
+                    match rng.below(10) {
+                        0 => { guards.push(InferGuard::new()); ops.push(json!(["new"])); }
+                        1..=3 => { let g = rng.below(guards.len()); let c = guards[g].fork(); guards.push(c); ops.push(json!(["fork", g])); }
+                        _ => {
+                            let g = rng.below(guards.len());
+                            let id = rng.below(nids) + 1;
+                            let r = guards[g].check(&LuaTypeDeclId::global(&format!("G{}", id))).is_ok();
+                            ops.push(json!(["check", g, id]));
+                            answers.push(json!(r));
+                        }
+                    }
+                }
+                println!("{}", json!({"ops": ops, "answers": answers}));
+            }
+        }
+        "humanize" => {
+            // C12 tie for the depth guard of TypeHumanizer: nested types rendered with a chosen max_depth;
+            // observed: does the text contain the cut marker "..."
+            let mut w = World::new("---@class HA\n---@class HB: HA\n", &json!({}));
+            for case in 0..n {
+                let mut rng = Rng::new(seed ^ 0x4855 ^ ((case as u64).wrapping_mul(0x9E3779B97F4A7C15)));
+                rng.next();
+                let k = rng.below(18);
+                let mut t = rng.pick(&["string", "HA", "integer", "'a'"]).to_string();
+                for _ in 0..k {
+                    t = match rng.below(6) {
+                        0 | 1 | 2 => format!("({})[]", t),
+                        3 => format!("({})?", t),
+                        4 => format!("[{}, HB]", t),
+                        _ => format!("({}) | HB", t),
+                    };
+                }
+                let ty = w.ty(&t);
+                let mut ps = Ptrs::default();
+                let tj = tyjson(&ty, &mut ps);
+                let d = rng.range(1, 16) as u8;
+                let mut text = String::new();
+                let _ = TypeHumanizer::new(w.db(), RenderLevel::Documentation).with_max_depth(d).write_type(&ty, &mut text);
+                let mut text_default = String::new();
+                let _ = TypeHumanizer::new(w.db(), RenderLevel::Documentation).write_type(&ty, &mut text_default);
+                println!("{}", json!({"spec": t, "type": tj, "max_depth": d, "dots": text.contains("..."), "dots_default": text_default.contains("..."), "text": text}));
             }
         }
         "one" => {
